@@ -13,10 +13,15 @@ package agreement
 //   * a network message is delivered as votePresent / bundlePresent / payloadPresent (compound: votePresent
 //     with a payloadPresent tail, as demux.setupCompoundMessage does); the verify* crypto actions the machine
 //     answers with are turned into the matching *Verified event for the SAME node;
+//   * a payload validation that is still in flight when a newer proposal of the same (round, period | pinned)
+//     is submitted comes back Cancelled (pendingRequestsContext.addProposal); nothing else is ever "lost"
+//     inside a node; the network de-duplicates like a rotating recently-seen cache (an identical message is
+//     not queued twice and not delivered again within 60 scheduler steps / 5 s after its delivery);
 //   * the scheduler decides order, delay, duplication, loss, partitions, per-step withholding, timeouts
 //     (any time: a timeout that fires "early" is a late message) and fast timeouts (hypothesis N5 of
 //     DESIGN 8.2: a VOTING fast timeout is delivered only to a node whose Step > cert; the first,
-//     non-voting one is free, as in the service where it fires at time 0 of every period);
+//     non-voting one is free, as in the service where it fires at time 0 of every period; deadline timeouts
+//     stop at step next+11 of one period, see c01StepCap);
 //   * Byzantine senders (ids n+1..n+nb, no machine) cast arbitrary valid votes: echo every honest group's
 //     own votes back to that group only (two-faced), vote random values, equivocate, craft bundles from any
 //     votes that were ever on the network (stale bundles included) and propose withheld / equivocating values;
@@ -170,6 +175,7 @@ type c01Sim struct {
 	lastR  round
 	runIdx int
 	catchupDelay time.Duration
+	hold   map[int]bool // nodes whose payload validation results are held back (directed scenarios)
 	dlObs  []interface{} // C05: (period stepBefore napBefore entropy stepAfter napAfter deadlineAfter dynamicFilter) per deadline timeout
 }
 
@@ -1186,6 +1192,18 @@ func (s *c01Sim) deliverLocal(i int) bool {
 	k := 0
 	if s.rnd.Intn(6) == 0 {
 		k = s.rnd.Intn(len(nd.local))
+	}
+	if s.hold[i] {
+		k = -1
+		for j, e := range nd.local {
+			if !strings.HasPrefix(e.kind, "payloadV:") {
+				k = j
+				break
+			}
+		}
+		if k < 0 {
+			return false
+		}
 	}
 	e := nd.local[k]
 	nd.local = append(nd.local[:k:k], nd.local[k+1:]...)
